@@ -208,8 +208,13 @@ where
 
 /// `*/` inside the documentation text (e.g. a glob like `src/**/*.rs`) would end the JSDoc block
 /// early, and the rest of the text would be read as code. It is emitted as `*\/`.
+/// The text follows a `*` of the comment (`/**` or ` *`), so the same goes for a leading `/`.
 fn escape_comment_end(doc: &str) -> String {
-    doc.replace("*/", "*\\/")
+    let doc = doc.replace("*/", "*\\/");
+    match doc.strip_prefix('/') {
+        Some(rest) => format!("\\/{rest}"),
+        None => doc,
+    }
 }
 
 /// Return doc comments parsed and formatted as JSDoc.
